@@ -40,6 +40,11 @@ class ExprMixin:
                             return VBool(self.truth(r) if meth == '__bool__' else self.arith_term(r) != 0)
                         t = self.eval_pure(call).term
                         return z3.And(v.term != 0, t) if v.nullable else t
+                if v.typ.cls not in self.final_classes and v.typ.cls not in ('_MetaAgent',):
+                    # a user subclass may define __bool__ / __len__: the truth value of an instance is not
+                    # determined by the library (only `is None` / `is not None` tests are)
+                    f = z3.Function('truthy_instance', I, B)
+                    return z3.And(v.term != 0, f(v.term))
             return v.term != 0
         if isinstance(v, VFunc) and v.kind == 'class' and v.name in self.prog.classes and self.prog.metaclass_of(v.name):
             fi = self.prog.find_method(self.prog.metaclass_of(v.name), '__len__')
@@ -345,6 +350,16 @@ class ExprMixin:
             return t if isinstance(op, ast.Eq) else z3.Not(t)
         if isinstance(op, (ast.Is, ast.IsNot)):
             t = self.values_equal(a, b, identity=True)
+            if not self.spec_mode and isinstance(a, (VInt, VNum, VStr)) and isinstance(b, (VInt, VNum, VStr)):
+                # `is` on numbers / strings is object identity: implied by nothing but CPython's caches
+                u = self.fresh('same_object', B)
+                if isinstance(a, (VInt,)) and isinstance(b, (VInt,)):
+                    small = z3.And(a.term >= -5, a.term <= 256)
+                    t = z3.And(t, z3.Or(small, u))
+                else:
+                    t = z3.And(t, u)
+                self.used_assumption('`is` between numbers / strings: equal values are the same object only for '
+                                     "CPython's small-int cache (-5..256)")
             return t if isinstance(op, ast.Is) else z3.Not(t)
         if isinstance(op, (ast.In, ast.NotIn)):
             t = self.contains(b, a)
